@@ -100,7 +100,7 @@ def build_mesh(m):
         mesh = mesh.rotate(r["angle"], axis=r.get("axis", 2))
         pts = mesh.points + np.asarray(r["shift"], dtype=float)[: mesh.dim]
         mesh = fem.Mesh(pts, mesh.cells, mesh.cell_type)
-    ex = m.get("extra_point")
+    ex = m.get("extra_point") or m.get("orphan_point")
     if ex:
         mesh = fem.Mesh(np.vstack([mesh.points, np.asarray(ex, dtype=float)[: mesh.dim]]), mesh.cells, mesh.cell_type)
     return mesh
@@ -351,10 +351,10 @@ class World:
         if sel.get("at") == "extra":
             return np.array([self.mesh.npoints - 1])
         ax = sel["axis"]
-        body = pts[:-1] if self.doc["mesh"].get("extra_point") else pts
+        body = pts[:-1] if (self.doc["mesh"].get("extra_point") or self.doc["mesh"].get("orphan_point")) else pts
         coord = body[:, ax].max() if sel["at"] == "max" else body[:, ax].min()
         ids = np.arange(self.mesh.npoints)[np.isclose(pts[:, ax], coord)]
-        if self.doc["mesh"].get("extra_point"):
+        if self.doc["mesh"].get("extra_point") or self.doc["mesh"].get("orphan_point"):
             ids = ids[ids != self.mesh.npoints - 1]
         if "first" in sel:
             ids = ids[: sel["first"]]
@@ -375,7 +375,7 @@ class World:
         fmesh = fld.region.mesh
         kw = {}
         bpts = fmesh.points
-        if self.doc["mesh"].get("extra_point") and fmesh is self.mesh:
+        if (self.doc["mesh"].get("extra_point") or self.doc["mesh"].get("orphan_point")) and fmesh is self.mesh:
             bpts = bpts[:-1]
         for ax, key in enumerate(("fx", "fy", "fz")):
             if key in c:
